@@ -235,9 +235,12 @@ Record iri_facts (i : str) : Prop := {
   if_nospace : nospace i = true;
   if_noat : nochar "@"%char i = true;
   if_nonempty : i <> [];
-  if_nocorners : has_corners i = false;
+  if_nolt : prefixb (Str "<") i = false;
   if_nobn : prefixb (Str "_:") i = false
 }.
+
+Lemma if_nocorners i : iri_facts i -> has_corners i = false.
+Proof. intros F. unfold has_corners. rewrite (if_nolt _ F). reflexivity. Qed.
 
 Lemma ok_iri_facts i : ok_iri i = true -> iri_facts i.
 Proof.
